@@ -381,6 +381,17 @@ def relex_table(report, g, lm, pm):
             except Raised:
                 ret = None
             table[(cur, prev)] = (list(calls), ret)
+            # the hook is entered again with the inserted semicolon as the
+            # offending token when a line break precedes the `/` (the
+            # lexer's current token is still the operator)
+            del calls[:]
+            try:
+                ret, _ = ev.call(perr, [Obj(
+                    'AutoLexToken', type='AUTOSEMI', value=';', lineno=1,
+                    lexpos=0, colno=0)], self_obj=selfobj)
+            except Raised:
+                ret = None
+            table[(cur, prev, 'AUTOSEMI')] = (list(calls), ret)
     return slash_tokens, prevs, table
 
 
@@ -402,6 +413,18 @@ def r054(report, g, lm, pm, both, slash_tokens, prevs, table):
             rule.check(ok, 're-lex %s after %s' % (cur, prev),
                        '%s after %s' % (cur, prev), detail,
                        where='parsers/es5.py:Parser.p_error')
+            calls, ret = table[(cur, prev, 'AUTOSEMI')]
+            ok = calls == [len(lm.fixed[cur])] and isinstance(
+                ret, Obj) and ret.type == 'REGEX'
+            rule.check(ok, 're-lex %s after %s and a line break' % (
+                cur, prev), '%s after %s <line break>, hook re-entered '
+                'with the inserted semicolon' % (cur, prev),
+                'backtracks %r characters (result %r) for the '
+                '%d-character operator %r the lexer stands on: `{}\\n%s'
+                'x/.test(y)` is rejected' % (
+                    calls, ret, len(lm.fixed[cur]), lm.fixed[cur],
+                    lm.fixed[cur]),
+                where='parsers/es5.py:Parser.p_error')
     return rule
 
 
@@ -506,8 +529,8 @@ def rules(report, index, tier='quick'):
     g, lm = M.grammar, M.lexmodel
     pm = g.parser_module
     slash_tokens, prevs, table = relex_table(report, g, lm, pm)
-    relex_prev = {prev for (cur, prev), (calls, ret) in table.items()
-                  if calls and cur == 'DIV'}
+    relex_prev = {key[1] for key, (calls, ret) in table.items()
+                  if len(key) == 2 and calls and key[0] == 'DIV'}
     only_div, only_re, both = r051(report, g, lm, pm, relex_prev)
     headers = r052(report, g, lm)
     r053(report, g, lm, only_div, only_re, headers, tier)
